@@ -46,6 +46,18 @@ class IceDriver:
                 want = np.array([ice.index(float(x)) for x in arr])
                 if np.shape(na) != (4,) or not np.array_equal(np.asarray(na, dtype=float), want):
                     raise Divergence('%s%s.index(array) vs scalar calls at %s' % (name, tuple(c['rg']), list(arr)), list(want), list(np.asarray(na, dtype=float)))
+                # outside indices left undeclared (None) default to the profile's own value at the corresponding edge of the range
+                keep = (ice.index_above, ice.index_below)
+                try:
+                    ice.index_above, ice.index_below = None, None
+                    lo_, hi_ = float(c['rg'][0]), float(c['rg'][1])
+                    for nm_, edge, zz in (('index_above', hi_, hi_ + 5.0), ('index_below', lo_, lo_ - 5.0)):
+                        want_n = float(ice.index(edge))
+                        if not (abs(float(getattr(ice, nm_)) - want_n) <= 1e-12 and abs(float(ice.index(zz)) - want_n) <= 1e-12):
+                            raise Divergence('%s%s with %s = None: the attribute and index(%g)' % (name, tuple(c['rg']), nm_, zz), want_n,
+                                             (float(getattr(ice, nm_)), float(ice.index(zz))))
+                finally:
+                    ice.index_above, ice.index_below = keep
                 if ice.contains((0.0, 0.0, z)) != (last['region'] == 'inside'):
                     raise Divergence('%s%s.contains((0,0,%g))' % (name, tuple(c['rg']), z), last['region'] == 'inside', ice.contains((0, 0, z)))
         elif c['kind'] == 'stack':
